@@ -12,7 +12,9 @@
    * [cc_runs]  : per concurrent call, its spec and its observation while 8-32 goroutines
                   were calling the same compiled object;
    * [cc_sched] : the observed global interleaving (run index of every event in time order,
-                  two letters a..p per entry).
+                  two letters a..p per entry);
+   * [cc_rec]   : the projection of the compiled record read off the implementation's *runner
+                  through the hook, before the first and after the last call.
 
    Model side.  With [cc_obj = Some c]: the product system of Model/Isolation.v over the
    engine ([lift estep]), one run per concurrent call initialised from the call's input and
@@ -31,7 +33,11 @@ Record ccase : Type := CCase {
   cc_tab : list (string * list string);
   cc_solo : list nat;
   cc_runs : list (nat * nat);
-  cc_sched : string
+  cc_sched : string;
+  (* the compiled record as the hook compose/verif_c09.go projects it from the *runner that
+     Compile built, before the first call and after the last one ([] = the object has no
+     compiled graph record): both must be the projection of the description the model runs *)
+  cc_rec : list string
 }.
 
 Fixpoint sched_of (s : string) : list nat :=
@@ -112,12 +118,20 @@ Definition solo_ok (cs : ccase) : bool :=
       all2 (fun k i => oobs_eqb (erun c fuel k) (nth_error (cc_tab cs) i)) (cc_calls cs) (cc_solo cs)
   end.
 
+(* the compiled record: what Compile built is what the model runs, before and after the calls
+   (engine_record_fixed: no schedule of any number of runs changes the model's record) *)
+Definition rec_ok (cs : ccase) : bool :=
+  match cc_obj cs with
+  | None => true
+  | Some c => forallb (String.eqb (crec_proj c)) (cc_rec cs)
+  end.
+
 Definition bad (cs : ccase) : bool :=
   match model_runs cs with
   | None => true
   | Some obs =>
       negb (all2 (fun o run => oobs_eqb o (nth_error (cc_tab cs) (snd run))) obs (cc_runs cs))
-      || negb (solo_ok cs)
+      || negb (solo_ok cs) || negb (rec_ok cs)
   end.
 
 Definition mismatches (cs : list ccase) : list nat := mismatches_from bad 0 cs.
